@@ -431,7 +431,6 @@ func (r *bigRunner) step(op string) string {
 		if err != nil {
 			return "err"
 		}
-		r.views = nil // a view keeps the staged store it was derived from; callers derive views after a restore
 		if ok {
 			r.eff, r.written = snap.eff, snap.written
 		}
